@@ -61,4 +61,14 @@ PROPS = {
                 "(listed ids clear, left-out ids do not, unrestricted only if all clear, nothing clears after the expiry); non-trivial = the set contains a caveat of the kind the helper reads",
         "assumptions": ["the helpers read time.Now() through flyio.Access: generated validity windows stay >= 1 h away from the wall clock; the model takes the clock as an input"],
     },
+    "C19": {
+        "obligation_files": ["Properties/C19.v"],
+        "model_files": ["Model/Base64.v", "Model/Header.v", "Corr/Transport.v", "Corr/RunH.v"],
+        "rule": "stream header: random token lists (1-5 tokens, lengths 1-200 incl. every length class mod 3) formatted by ToAuthorizationHeader, re-labelled per token (fm2/fm1r/fm1a), decorated (0-3 schemes FlyV1/Bearer in random case, random ASCII whitespace) "
+                "and corrupted in 12 ways (unknown label, missing separator, bad alphabet, bad padding, embedded CR/LF, empty element, spaces around commas, fo1 entries, empty token, only-oauth, label variants, random byte); "
+                "Parse, StripAuthorizationScheme, ToAuthorizationHeader, bundle tokeniser (typed parts), base64 decoder and FindPermissionAndDischargeTokens compared with the model; implementation-side round-trip oracle; ASCII only; "
+                "non-trivial = all header cases (base64 cases: decodes to non-empty); distinct = distinct Coq case term",
+        "assumptions": ["headers are ASCII: Go's Unicode TrimSpace/EqualFold on non-ASCII input is outside the model (guard stated in the theorems' domain: str = list of bytes < 128 is what the generator emits)",
+                        "encoding/base64 is modelled (Model/Base64.v) and compared directly on ~300/8000 strings per run"],
+    },
 }
